@@ -55,6 +55,8 @@ def scenario(big: bool = False) -> Any:
             else:
                 m.pop("rv")
                 m.pop("rvobj")
+            if m.get("timeout") is not None and float(m["timeout"]) <= 0 and m["kind"] != "async":
+                m["timeout"] = None       # a non-positive label on a sync function is not claimed either way (its future is never "done" at once)
             kn = m.pop("kwnames")
             if kn and m["kind"] in ("async", "sync"):
                 m["kwnames"] = kn
@@ -71,7 +73,7 @@ def scenario(big: bool = False) -> Any:
     base = cm.message(kinds=("async", "async", "async", "sync", "swapped"),
                       outs=("ret", "ret", "ret", "ValueError", "MyErr", "KeyboardInterrupt", "SystemExit", "CancelledError",
                             "MyBase", "NoResult", "EmptyBatchError", "BadStrError", "TaskRejectedError"),
-                      timeouts=(None, None, 0.3, 0.35, 1, "0.3", "1", 3, "3.0", 1.5, "2.5"), acks=("sync",), durs=cm.DURS + [2.0])
+                      timeouts=(None, None, 0.3, 0.35, 1, "0.3", "1", 3, "3.0", 1.5, "2.5", 0, -1, "0"), acks=("sync",), durs=cm.DURS + [2.0])
     msg = st.tuples(base, st.fixed_dictionaries({
         "rvkind": st.sampled_from(["json", "json", "obj", "default"]),
         "rv": JSONV, "rvobj": st.sampled_from(sorted(wh.OBJECTS)),
@@ -146,7 +148,8 @@ def run_case(sc: Dict[str, Any]) -> Outcome:
         is_async = sp["kind"] == "async"
         timed_out = wh.timeout_verdict(sp) == "timeout"
         tie = wh.timeout_verdict(sp) == "tie"
-        if "enter" not in kinds:
+        if "enter" not in kinds and not (is_async and to is not None and float(to) <= 0):
+            # (a timeout label <= 0 expires before the coroutine gets to run at all: the stored result is the timeout error all the same)
             out.add("C07.d", f"message {i} was not executed; events={kinds}")
             continue
         if kinds.count("ack") != 1:
@@ -176,9 +179,11 @@ def run_case(sc: Dict[str, Any]) -> Outcome:
             classes.add("timeout")
             if not r.is_err or type(r.error) is not TimeoutError:
                 out.add("C07.b", f"message {i} exceeded timeout {to!r} (dur {sp['dur']}) but stored is_err={r.is_err} error={short(r.error, 80)}")
-            t_enter = next(e[1] for e in evs if e[2] == "enter")
+            t_enter = next((e[1] for e in evs if e[2] == "enter"), None)
             t_exit = next((e[1] for e in evs if e[2] == "exit"), None)
-            if t_exit is None or abs(t_exit - (t_enter + float(to))) > 1e-6:
+            if t_enter is None:
+                pass        # label <= 0: expired before the body could start
+            elif t_exit is None or abs(t_exit - (t_enter + max(0.0, float(to)))) > 1e-6:
                 out.add("C07.b", f"message {i}: body not cancelled at enter+timeout ({t_enter}+{to}); exit at {t_exit}")
         elif sp["out"] == "ret":
             exp = wh.ret_value(sp, i)
